@@ -458,8 +458,3 @@ func (r *Run) isTerminatingPodAddr(ns, svc, addr string) bool {
 	}
 	return false
 }
-
-// placeholders until their oracles are written
-func (r *Run) checkTLSCerts()       {}
-func (r *Run) checkClassSelection() {}
-func (r *Run) checkExtAuth()        {}
